@@ -306,7 +306,7 @@ Registrar reg(Prop{
     "A frame that cannot be the awaited response (wrong command specifier for the phase, wrong toggle bit, initiate response or abort for a different multiplexer: the late answer to an earlier transfer) may precede the server's answer: the client either ignores it (no frame, no callback, the transfer completes as without it) or ends the transfer there with a non-zero code - never code 0. "
     "In build n2 the second client runs an expedited transfer of its own concurrently (begun between two steps of the main transfer; completed there, at a later step or after the main transfer; or its server stays silent and it must end with 0504 0000h and an abort frame at exactly its own timeout of 2..61 ms while the main client's timers come and go): neither transfer may disturb the other. "
     "In a fifth of the transfers the application asks for its next transfer from inside the completion callback: refused (busy) or accepted - then that transfer has to complete exactly once with the server's bytes. "
-    "In a third of the configurations a request is made with the timer pool exhausted by application timers: accepted (and then completed normally) or refused - then the client must be usable again as soon as a slot is free. "
+    "In a quarter of the undisturbed transfers application timers occupy every remaining slot of the timer pool while the transfer runs (it needs no second slot at any moment). In a third of the configurations a request is made with the timer pool exhausted by application timers: accepted (and then completed normally) or refused - then the client must be usable again as soon as a slot is free. "
     "user buffers are exact-size heap blocks (ASan red zones); download buffers unmodified (conforming servers); timer-pool occupancy after completion equals the one before; client idle; no callback or frame during the idle gap or on a late server frame. For malformed servers only exactly-once (by the timeout at the latest), memory safety and nothing-left-behind are asserted. "
     "Non-trivial: >= 2 transfers in the case or a segmented transfer. Distinct = distinct decoded choice sequence.",
     {Mode{"random", one_case, false, 1200000, 15000000, 0, 0, 400, 1500}},
